@@ -76,6 +76,9 @@ class Report:
 
     def anchor(self, name, value):
         """record a resolved anchor; a falsy value means the anchor is lost -> fail closed"""
+        if not hasattr(self, 'anchor_marks'):
+            self.anchor_marks = []
+        self.anchor_marks.append((name, len(self.obs)))      # what is emitted from here on (until the next anchor) stands behind this anchor
         if not value:
             self.anchors[name] = None
             self.violation('anchor', 'anchor-lost:' + name, detail='anchor lost: %s — the structural guarantee can no longer be '
@@ -184,6 +187,23 @@ def second_opinion(pid, mod, prog, rep, tier, config):
     for o in resolved:
         out.append(Ob(o.rule, o.key, OK, where=o.where, fn=o.fn, trivial=True,
                       detail='reported on the function as written, discharged on the view with helper functions inlined: ' + (o.detail or '')[:160]))
+    # a function-level anchor that was found again on the second view: what the second view judged behind it (the obligations it
+    # emitted between that anchor and the next one) is carried over — including violations
+    have = {o.key for o in out} | {o.key for o in resolved}
+    marks_b = getattr(repb, 'anchor_marks', [])
+    for o in resolved:
+        if o.rule != 'anchor':
+            continue
+        nm = o.key.split('anchor-lost:', 1)[-1]
+        for i, (n2, pos) in enumerate(marks_b):
+            if n2 != nm:
+                continue
+            end = marks_b[i + 1][1] if i + 1 < len(marks_b) else len(repb.obs)
+            for x in repb.obs[pos:end]:
+                if x.key not in have and x.rule != 'anchor':
+                    have.add(x.key)
+                    x.detail = '[on the view with helper functions inlined] ' + (x.detail or '')
+                    out.append(x)
     # a rule whose lost anchor was found again on the second view is judged there: carry its obligations over
     have = {o.key for o in out}
     for o in resolved:
